@@ -182,6 +182,18 @@ def _segment(pos: Lin, sit) -> str:
     return "gt"
 
 
+class _NeedAtom(Exception):
+    def __init__(self, key):
+        self.key = key
+
+
+def _probe_only(e: ast.Compare, x: str) -> bool:
+    parts = [e.left] + list(e.comparators)
+    names = {n.id for p_ in parts for n in ast.walk(p_) if isinstance(n, ast.Name)}
+    return names == {x} and not any(isinstance(n, (ast.Subscript, ast.Call)) for p_ in parts for n in ast.walk(p_)) \
+        and not any(isinstance(o, (ast.Is, ast.IsNot)) for o in e.ops)
+
+
 def _rel_eval(f: Func, a: str, x: str, body: List[ast.stmt]):
     """{situation: result text} of the helper body under the relational abstraction."""
     def num(e: ast.AST, env, sit) -> Lin:
@@ -222,7 +234,18 @@ def _rel_eval(f: Func, a: str, x: str, body: List[ast.stmt]):
         if isinstance(e, ast.Name) and e.id == a:
             return _cmp(ast.Gt(), N_, Lin(), sit)
         if isinstance(e, ast.Name) and e.id == x:
-            return xt
+            return xt["truthy"]
+        if isinstance(e, ast.Compare) and len(e.ops) == 1 and _probe_only(e, x):
+            # a test of the probe's own value (x < 0, x == 0, ...): nothing the list/probe situation
+            # decides, so both outcomes are explored
+            key = norm(e)
+            if key == f"{x} == 0" or key == f"0 == {x}":
+                return not xt["truthy"]
+            if key == f"{x} != 0" or key == f"0 != {x}":
+                return xt["truthy"]
+            if key not in xt:
+                raise _NeedAtom(key)
+            return xt[key]
         if isinstance(e, ast.Compare) and len(e.ops) == 1:
             op, l, r = e.ops[0], e.left, e.comparators[0]
             if isinstance(op, (ast.Is, ast.IsNot)) and isinstance(r, ast.Constant) and r.value is None:
@@ -240,11 +263,6 @@ def _rel_eval(f: Func, a: str, x: str, body: List[ast.stmt]):
                 if isinstance(l, ast.Name) and l.id in env and env[l.id] is None or isinstance(r, ast.Name) and r.id in env and env[r.id] is None:
                     raise _Outside("comparison with a None-valued local")
                 return _cmp(op, num(l, env, sit), num(r, env, sit), sit)
-            if (le == "probe" and isinstance(r, ast.Constant) and r.value == 0) or (re_ == "probe" and isinstance(l, ast.Constant) and l.value == 0):
-                if isinstance(op, ast.Eq):
-                    return not xt
-                if isinstance(op, ast.NotEq):
-                    return xt
         if isinstance(e, ast.Name) and e.id in env and isinstance(env[e.id], Lin):
             return _cmp(ast.NotEq(), env[e.id], Lin(), sit)
         calls_ = [c_ for c_ in ast.walk(e) if isinstance(c_, ast.Call) and norm(c_.func) != "len"
@@ -301,10 +319,20 @@ def _rel_eval(f: Func, a: str, x: str, body: List[ast.stmt]):
     results = {}
     for sit in itertools.product(CLASSES, repeat=3):
         outs = []
-        for xt in (True, False):
+        pending = [{"truthy": True}, {"truthy": False}]
+        while pending:
+            xt = pending.pop()
+            if len(xt) > 6:
+                raise _Outside("too many tests of the probe's own value")
             try:
                 run(body, {}, sit, xt)
                 r = None
+            except _NeedAtom as na:
+                for val in (True, False):
+                    x2 = dict(xt)
+                    x2[na.key] = val
+                    pending.append(x2)
+                continue
             except _Ret as ret:
                 r = ret.v
             except _IndexErr:
@@ -408,9 +436,8 @@ def bisect_recipes(ctx):
                     rt = r.text() if isinstance(r, Lin) else str(r)
                     wt = want.text() if isinstance(want, Lin) else str(want)
                     msg = f"list with {_sit_text(sit)}: returns {rt}, documented {wt}"
-                    if outs[0] is not outs[1] and not (isinstance(outs[0], Lin) and isinstance(outs[1], Lin)
-                                                       and (outs[0] - outs[1]).is_zero()):
-                        msg += " (depending on the probe's truthiness)"
+                    if len({(o.text() if isinstance(o, Lin) else str(o)) for o in outs}) > 1:
+                        msg += " (depending on the probe's own value)"
                     if msg not in bad:
                         bad.append(msg)
         n_states = len(results)
